@@ -283,6 +283,8 @@ class X:
             fail(e, "epistemic_state[%r] is not a declared input of %s" % (k, self.ctx.fn.name))
         c, t, b = self.tx(e.value, env)
         if isinstance(e.slice, ast.Slice):
+            if e.slice.lower is None and e.slice.upper is None and e.slice.step is None and isinstance(t, tuple) and t[0] == "list":
+                return c, t, b          # l[:] - a fresh copy (values are immutable on the Coq side)
             fail(e, "slices")
         i, it, ib = self.tx(e.slice, env)
         name = self.ctx.fresh()
@@ -1038,6 +1040,15 @@ class X:
             if ft != "form":
                 fail(e, "eval of %r" % (ft,))
             return "(eval %s %s)" % (c, fc), "bool", b + fb
+        if t == "pool" and f.attr == "id" and len(e.args) == 1 and not e.keywords:
+            fn = self.ctx.table.get("@pool_id")
+            kc, kt, kb = self.tx(e.args[0], env)
+            if fn is None or kt != "int":
+                fail(e, "pool.id of %r" % (kt,))
+            if fn not in self.ctx.fn.uses:
+                self.ctx.fn.uses.append(fn)
+            nm = self.ctx.fresh("r")
+            return nm, "int", b + kb + [(nm, "(%s %s)" % (fn.coq, kc), "call")]
         if t == "isolver" and f.attr == "solve" and not e.args and not e.keywords:
             fn = self.ctx.table.get("@isolve")        # the SMT solver on integer constraints: an oracle parameter
             if fn is None:
@@ -1714,7 +1725,7 @@ class B:
 
 # ------------------------------------------------------------------------------------------------ driver
 COQ_TYPES = {"bool": "bool", "int": "Z", "form": "form", "cond": "cond", "solver": "solver", "str": "unit", "none": "unit",
-             "bb": "pybase", "deadline": "unit", "wcnf": "wcnf", "sclause": "sclause", "optimizer": "unit", "tseitin": "unit", "world": "world", "zopt": "zopt", "optint": "(option Z)", "preocf": "(wdict (option Z))", "iterm": "iterm", "icon": "icon", "isolver": "(list icon)", "symidx": "symidx", "float": "unit"}
+             "bb": "pybase", "deadline": "unit", "wcnf": "wcnf", "sclause": "sclause", "optimizer": "unit", "tseitin": "unit", "world": "world", "zopt": "zopt", "optint": "(option Z)", "preocf": "(wdict (option Z))", "pool": "unit", "iterm": "iterm", "icon": "icon", "isolver": "(list icon)", "symidx": "symidx", "float": "unit"}
 
 
 def coq_type(t):
@@ -2035,6 +2046,10 @@ TARGETS = [
     dict(out="SrcOpt", file="inference/optimizer.py", requires=[], funcs=[
         Fn("get_violated_conditional", "py_get_violated_conditional", [("model", ("list", "int")), ("cost", "int"), ("ignore", ("list", "int"))], cls="Optimizer",
            state=[("nf_cnf_dict", "es_nf_cnf_dict", ("dict", ("list", ("list", "int"))))], locals_={"violated": ("set", "int")}),
+        Fn("@pool_id", "m_pool_id", [("obj", "int")], ret="int", abstract=True),
+        Fn("exclude_violated", "py_exclude_violated", [("violated", ("set", "int"))], cls="Optimizer",
+           state=[("nf_cnf_dict", "es_nf_cnf_dict", ("dict", ("list", ("list", "int")))), ("pool", "es_pool", "pool")],
+           locals_={"return_constraints": ("list", ("list", "int")), "helper_variables_clause": ("list", "int")}),
         Fn("remove_supersets", "py_remove_supersets", [("lst_of_sets", ("list", ("set", "int")))], locals_={"filtered": ("list", ("set", "int"))}),
     ]),
     dict(out="SrcCrev", file="inference/c_revision.py", requires=["SrcCond", "SrcOcf", "SrcC"], extra_imports=["PyInt"], funcs=[
